@@ -1,3 +1,4 @@
+@torch.no_grad()
 def spec(t0, t1, cost):
     if not isinstance(cost, torch.Tensor):
         if cost == 0.0:
